@@ -118,7 +118,10 @@ Leaf(op, l, r) ==       \* l, r: Variants
                    IF IsNumText(fv) /\ IsNumText(val)
                    THEN Res(CASE op = "Gt" -> I64Of(fv) > I64Of(val) [] op = "Gte" -> I64Of(fv) >= I64Of(val)
                               [] op = "Lt" -> I64Of(fv) < I64Of(val) [] OTHER -> I64Of(fv) <= I64Of(val))
-                   ELSE IF HasDot(fv) \/ HasDot(val) THEN Abstain ELSE Res(FALSE)
+                   \* (texts that are not both numbers are ordered by their characters; decimals: the model abstains)
+                   ELSE IF HasDot(fv) \/ HasDot(val) THEN Abstain
+                   ELSE Res(CASE op = "Gt" -> ~LexLeq(fv, val) [] op = "Gte" -> LexLeq(val, fv)
+                              [] op = "Lt" -> ~LexLeq(val, fv) [] OTHER -> LexLeq(fv, val))
             [] OTHER -> Res(FALSE)
   ELSE IF l.t = "I" THEN
      LET c == IF r.t = "I" THEN [ok |-> TRUE, i |-> r.i] ELSE IF r.t = "S" THEN ToInt(r.s) ELSE [ok |-> FALSE, i |-> 0] IN
